@@ -62,6 +62,10 @@ structure MSt where
   /-- sends that issued all their requests and then failed with a broker's error code (`fail_on_error`): their
       routing is checked like that of a completed send -/
   pendingRouting : List Nat := []
+  /-- sends that failed in any other way (cancelled, undecodable reply, client closed or encoder error while issuing,
+      TypeError of `_handle_responses`) after at least one request was issued: the requests issued SO FAR are checked
+      (distinct brokers, disjoint ascending payload indices, each payload to a broker the metadata named) -/
+  pendingPartial : List Nat := []
   /-- coordinator requests (`_send_request_to_coordinator`) issued in the current step: request, broker client,
       group, the cache before the step -/
   pendingCoord : List (Nat × Nat × String × Cache) := []
@@ -134,6 +138,20 @@ def checkRouting (s : MSt) (op : MOp) : List String :=
   let c1 := if nodup nodes && nodes.length == rs.length then [] else [s!"op {op.o}: more than one request to the same broker"]
   let c2 := if sortNats (rs.flatMap (·.idxs)) == List.range n && rs.all (fun r => ascending r.idxs) then []
             else [s!"op {op.o}: the requests do not partition the payload list in order"]
+  let c3 := if rs.all (fun r => r.idxs.all (fun i => match op.keys[i]?, nodeOf s r.b with
+              | some key, some node => op.hist.any (fun c => responsible c key op.group == some node)
+              | _, _ => false)) then [] else [s!"op {op.o}: a payload was sent to a broker the metadata never named for it"]
+  c1 ++ c2 ++ c3
+
+/-- routing checks of a send that failed before (or without) completing: what was issued so far goes to distinct
+    brokers, carries disjoint, ascending payload indices of the list, each payload to a broker the metadata named -/
+def checkRoutingPartial (s : MSt) (op : MOp) : List String :=
+  let rs := s.reqs.filter (fun r => r.op == some op.o)
+  let n := op.keys.length
+  let nodes := rs.filterMap (fun r => nodeOf s r.b)
+  let c1 := if nodup nodes && nodes.length == rs.length then [] else [s!"op {op.o}: more than one request to the same broker"]
+  let c2 := if nodup (rs.flatMap (·.idxs)) && (rs.flatMap (·.idxs)).all (fun i => decide (i < n)) && rs.all (fun r => ascending r.idxs) then []
+            else [s!"op {op.o}: the requests issued do not carry disjoint parts of the payload list in order"]
   let c3 := if rs.all (fun r => r.idxs.all (fun i => match op.keys[i]?, nodeOf s r.b with
               | some key, some node => op.hist.any (fun c => responsible c key op.group == some node)
               | _, _ => false)) then [] else [s!"op {op.o}: a payload was sent to a broker the metadata never named for it"]
@@ -235,13 +253,13 @@ def stepItem (cfg : Cfg) (s : MSt) : TItem → MSt
                -- raised by `_handle_responses` after every request was issued and answered (a coordinator look-up
                -- failing with a broker error code happens before anything is issued)
                if s1.reqs.any (fun q => q.op == some op) then { s1 with pendingRouting := s1.pendingRouting ++ [op] } else s1
-             | _ => s1)
+             | _ => if s1.reqs.any (fun q => q.op == some op) then { s1 with pendingPartial := s1.pendingPartial ++ [op] } else s1)
          | _ => s1)
     | _ => s
   | .dump c =>
     let s : MSt := { s with reqs := s.reqs.map (fun (q : MReq) => if q.cands.length == 1 then { q with cands := q.cands ++ [c] } else q) }
     let s0 := { s with lastDump := c, ops := s.ops.map (fun (x : MOp) =>
-      if x.done && !s.pendingChecks.any (fun (p : Nat × List Int × List Nat) => p.1 == x.o) && !s.pendingRouting.contains x.o then x
+      if x.done && !s.pendingChecks.any (fun (p : Nat × List Int × List Nat) => p.1 == x.o) && !s.pendingRouting.contains x.o && !s.pendingPartial.contains x.o then x
       else { x with hist := x.hist ++ [c] }) }
     let newFails := s0.pendingChecks.flatMap (fun (p : Nat × List Int × List Nat) =>
       match (s0.ops.filter (fun (x : MOp) => x.o == p.1)).head? with
@@ -259,6 +277,14 @@ def stepItem (cfg : Cfg) (s : MSt) : TItem → MSt
       match (s0.ops.filter (fun (x : MOp) => x.o == o)).head? with
       | some x => if (checkRouting s0 x).isEmpty then checkStale s0 x else []
       | Option.none => [])
+    let newPartial := s0.pendingPartial.flatMap (fun (o : Nat) =>
+      match (s0.ops.filter (fun (x : MOp) => x.o == o)).head? with
+      | some x => checkRoutingPartial s0 x
+      | Option.none => [])
+    let stalePartial := s0.pendingPartial.flatMap (fun (o : Nat) =>
+      match (s0.ops.filter (fun (x : MOp) => x.o == o)).head? with
+      | some x => if (checkRoutingPartial s0 x).isEmpty then checkStale s0 x else []
+      | Option.none => [])
     -- a coordinator request goes to the broker the cache names as the group's coordinator (before the step,
     -- or after it: the step itself may have looked the coordinator up)
     let newCoord := s0.pendingCoord.flatMap (fun (p : Nat × Nat × String × Cache) =>
@@ -271,8 +297,9 @@ def stepItem (cfg : Cfg) (s : MSt) : TItem → MSt
     -- its node (`_update_brokers` tells every existing broker client: what it has queued goes to the new address)
     let newAddr := if c.clients.all (fun (cl : Int × Broker) => get? cl.1 c.brokers == some cl.2) then []
       else ["a live broker client is not at the address the current metadata names for its broker"]
-    let s1 := { s0 with pendingChecks := [], pendingRouting := [], pendingCoord := [],
-                        fails := s0.fails ++ newFails ++ newRouting ++ newCoord ++ newAddr, staleFails := s0.staleFails ++ newStale ++ staleRouting }
+    let s1 := { s0 with pendingChecks := [], pendingRouting := [], pendingPartial := [], pendingCoord := [],
+                        fails := s0.fails ++ newFails ++ newRouting ++ newPartial ++ newCoord ++ newAddr,
+                        staleFails := s0.staleFails ++ newStale ++ staleRouting ++ stalePartial }
     { s1 with uns := s1.uns.map (fun (x : MUn) => match x.known with | Option.none => { x with known := some (c.brokers.map (·.1)) } | some _ => x) }
   | .attr k o idxs => setReq s k (fun q => { q with op := some o, idxs := idxs })
   | .uop u o => { s with loadUn := s.loadUn ++ [(o, u)] }
